@@ -8,12 +8,13 @@ git checkout -q -- . ; git clean -fdq
 PKG=$(python3 -c "import json;print(json.load(open('$OUT/meta.json'))['demo_package_dir'])")
 DEMO=$(ls $OUT/*_test.go | head -1)
 cp $DEMO $WT/$PKG/zz_seed_demo_test.go
+RACE=$(python3 -c "import json;print('-race' if '-race' in json.load(open('$OUT/meta.json')).get('demo_run_cmd','') else '')")
 TESTS=$(grep -oE "^func (Test[A-Za-z0-9_]+)" $DEMO | awk '{print $2}' | paste -sd'|')
 {
 echo "== demo tests: $TESTS in $PKG"
-echo "== without patch"; (cd $WT/$PKG && timeout 900 go test -vet=off -count=1 -timeout 800s -run "^($TESTS)\$" . 2>&1 | tail -5); echo "rc_without=${PIPESTATUS[0]}"
+echo "== without patch"; (cd $WT/$PKG && timeout 900 go test $RACE -vet=off -count=1 -timeout 800s -run "^($TESTS)\$" . 2>&1 | tail -5); echo "rc_without=${PIPESTATUS[0]}"
 git apply $OUT/patch.diff || echo "PATCH DOES NOT APPLY"
-echo "== with patch"; (cd $WT/$PKG && timeout 900 go test -vet=off -count=1 -timeout 800s -run "^($TESTS)\$" . 2>&1 | tail -8); 
+echo "== with patch"; (cd $WT/$PKG && timeout 900 go test $RACE -vet=off -count=1 -timeout 800s -run "^($TESTS)\$" . 2>&1 | tail -8); 
 echo "== build with patch"; (cd $WT/lib && go build ./... && echo build-ok)
 } > $OUT/confirm.log 2>&1
 rm -f $WT/$PKG/zz_seed_demo_test.go; git checkout -q -- .
